@@ -186,32 +186,11 @@ def friQueryLayers (J : Inst) (N : Nat) : List Commit → List Nat → Nat → P
         | .ok os => .ok (o :: os)
         | .error e => .error e
 
-/-! ## 5. The run of the prover: everything the proof is made of, as values -/
+/-! ## 5. The run of the prover: everything the proof is made of, as values
 
-/-- what `generate_proof` has computed when it builds the proof object -/
-structure Run where
-  ctx : Serde.Context
-  pubs : List Nat
-  ncols : Nat
-  /-- trace polynomials (base elements) and their embedding into `E` -/
-  polys : List (List El)
-  traceCommit : Commit
-  compTrace : List El
-  compCols : List (List El)
-  consCommit : Commit
-  deepCoeffs : List El
-  deepEvals : List El
-  fri : FriState
-  /-- the challenges as the prover drew them (`alphas`: one per FRI layer) -/
-  coeffs : List El
-  z : El
-  deep : List El
-  positions : List Nat
-  /-- the coin the nonce was searched for and the positions were drawn from -/
-  coinAtQueries : CoinSt
-  /-- the two halves of the proof as the verifier reads them -/
-  cm : VerifierChecks.Committed El Dg
-  op : VerifierChecks.Opened El Dg
+`generate_proof` is split into three phases (commitments up to the DEEP evaluations; FRI commit phase; proof of
+work, query positions, openings); every intermediate value — in particular every state of the public coin — is
+kept in the phase records, so that the theorems of WinterProofs/C01Prover.lean can speak about them. -/
 
 /-- the LDE domain `offset · g^i` as base elements -/
 def ldePoints (J : Inst) (lde : Nat) : List El := xCoordinates (baseOps J.I J.norm) lde (List.range lde)
@@ -220,8 +199,36 @@ def ldePoints (J : Inst) (lde : Nat) : List El := xCoordinates (baseOps J.I J.no
 def contextOf (J : Inst) (d : Desc) (o : Serde.ProofOptions) : Serde.Context :=
   ⟨⟨d.air.width, 0, 0, d.air.n, []⟩, (frontAir J d).modulusBytes, o⟩
 
-/-- `Prover::generate_proof::<E>` -/
-def proveRun (J : Inst) (E : EOps) (d : Desc) (trace : List (List Nat)) (o : Serde.ProofOptions) : PRes Run :=
+/-- steps 0–5 of `generate_proof`: what exists when the FRI prover is started -/
+structure Phase1 where
+  ctx : Serde.Context
+  pubs : List Nat
+  ncols : Nat
+  /-- trace polynomials, embedded into `E` -/
+  polys : List (List El)
+  traceCommit : Commit
+  troot : Dg
+  /-- coin after the trace commitment -/
+  c1 : CoinSt
+  coeffs : List El
+  c3 : CoinSt
+  compTrace : List El
+  compCols : List (List El)
+  consCommit : Commit
+  croot : Dg
+  z : El
+  c4 : CoinSt
+  oodTrace : List El
+  oodEvals : List El
+  /-- coin after both OOD reseeds -/
+  c6 : CoinSt
+  deep : List El
+  c7 : CoinSt
+  deepCoeffs : List El
+  deepEvals : List El
+
+/-- steps 0–5 of `Prover::generate_proof::<E>` -/
+def phase1 (J : Inst) (E : EOps) (d : Desc) (trace : List (List Nat)) (o : Serde.ProofOptions) : PRes Phase1 :=
   let K := coinOps J E
   let B := baseOps J.I J.norm
   let n := d.air.n
@@ -291,50 +298,106 @@ def proveRun (J : Inst) (E : EOps) (d : Desc) (trace : List (List Nat)) (o : Ser
         let oodCur := polys.map fun p => Divisor.polyEval E.div p z
         let oodNxt := polys.map fun p => Divisor.polyEval E.div p zg
         let oodTrace := Serde.interleave oodCur oodNxt
-        let c5 := K.reseed c4 (hashEls J oodTrace)
         let oodEvals := Composition.evaluateAt E.div cols z
-        let c6 := K.reseed c5 (hashEls J oodEvals)
+        let c6 := K.reseed (K.reseed c4 (hashEls J oodTrace)) (hashEls J oodEvals)
         match VerifierChecks.drawMany K (ti.main + ncols) c6 with
         | none => .error "get_deep_composition_coeffs"
         | some (deep, c7) =>
         match deepPoly E n z zg polys oodCur oodNxt cols oodEvals (deep.take ti.main) (deep.drop ti.main) with
         | .error e => .error e
         | .ok dp =>
-        -- 5. DEEP evaluations over the LDE domain, 6. FRI layers and remainder
-        let deepEvals := xs.map fun x => Divisor.polyEval E.div dp x
-        let fo := friOpts o
-        match friBuildLayers J E fo.folding (Fri.numFriLayers fo lde) deepEvals c7 with
-        | .error e => .error e
-        | .ok fs =>
-        match ofFri "set_remainder" (Fri.setRemainder E.fri fo fs.evals) with
-        | .error e => .error e
-        | .ok rem =>
-        let remRoot := hashEls J rem
-        let c8 := K.reseed fs.coin remRoot
-        -- 7. proof of work, query positions
-        match Coin.grind (hashOps J) c8 o.grinding (2 ^ (o.grinding + 16)) 1 with
-        | none => .error "grind_query_seed"
-        | some nonce =>
-        match K.drawInts c8 o.numQueries lde nonce with
-        | none => .error "get_query_positions"
-        | some ps =>
-        let positions := VerifierChecks.sortDedup ps
-        -- 8. openings
-        match friQueryLayers J fo.folding fs.layers positions lde, tc.openAt J positions, cc.openAt J positions with
-        | .ok friOpen, .ok topen, .ok copen =>
-          if rem.isEmpty ∨ 2 ^ Nat.log2 rem.length ≠ rem.length then .error "FriProof::new"
-          else if positions.length > 255 then .error "build_proof: num_query_positions"
-          else
-            .ok { ctx := ctx, pubs := pubs, ncols := ncols, polys := polys, traceCommit := tc, compTrace := compTrace,
-                  compCols := cols, consCommit := cc, deepCoeffs := dp, deepEvals := deepEvals, fri := fs,
-                  coeffs := coeffs, z := z, deep := deep, positions := positions, coinAtQueries := c8,
-                  cm := { traceRoots := [troot], constraintRoot := croot, oodTrace := oodTrace, oodEvals := oodEvals,
-                          friRoots := fs.roots ++ [remRoot], powNonce := nonce, gkr := none },
-                  op := { traceOpenings := [topen], constraintOpening := copen, friLayers := friOpen,
-                          remainder := rem, numPartitions := 1 } }
-        | .error e, _, _ => .error e
-        | _, .error e, _ => .error e
-        | _, _, .error e => .error e
+          -- 5. DEEP evaluations over the LDE domain
+          .ok { ctx := ctx, pubs := pubs, ncols := ncols, polys := polys, traceCommit := tc, troot := troot, c1 := c1,
+                coeffs := coeffs, c3 := c3, compTrace := compTrace, compCols := cols, consCommit := cc, croot := croot,
+                z := z, c4 := c4, oodTrace := oodTrace, oodEvals := oodEvals, c6 := c6, deep := deep, c7 := c7,
+                deepCoeffs := dp, deepEvals := xs.map fun x => Divisor.polyEval E.div dp x }
+
+/-- step 6: what the FRI commit phase leaves behind -/
+structure Phase2 where
+  fri : FriState
+  remainder : List El
+  remRoot : Dg
+  /-- coin after the remainder commitment: the one the nonce is searched for and the positions are drawn from -/
+  c8 : CoinSt
+
+/-- step 6 of `generate_proof`: `FriProver::build_layers` (layers, then `set_remainder`) -/
+def phase2 (J : Inst) (E : EOps) (o : Serde.ProofOptions) (lde : Nat) (deepEvals : List El) (c7 : CoinSt) : PRes Phase2 :=
+  let fo := friOpts o
+  match friBuildLayers J E fo.folding (Fri.numFriLayers fo lde) deepEvals c7 with
+  | .error e => .error e
+  | .ok fs =>
+    match ofFri "set_remainder" (Fri.setRemainder E.fri fo fs.evals) with
+    | .error e => .error e
+    | .ok rem => .ok ⟨fs, rem, hashEls J rem, (coinOps J E).reseed fs.coin (hashEls J rem)⟩
+
+/-- steps 7–8: proof of work, query positions, openings -/
+structure Phase3 where
+  nonce : Nat
+  drawn : List Nat
+  positions : List Nat
+  traceOpen : VerifierChecks.Opening El Dg
+  consOpen : VerifierChecks.Opening El Dg
+  friOpen : List (VerifierChecks.Opening El Dg)
+
+/-- steps 7–8 of `generate_proof`: `grind_query_seed`, `get_query_positions`, `FriProver::build_proof`,
+    `TraceLde::query`, `ConstraintCommitment::query`, and the assertions of `FriProof::new` / `build_proof` -/
+def phase3 (J : Inst) (E : EOps) (o : Serde.ProofOptions) (lde : Nat) (p1 : Phase1) (p2 : Phase2) : PRes Phase3 :=
+  match Coin.grind (hashOps J) p2.c8 o.grinding (2 ^ (o.grinding + 16)) 1 with
+  | none => .error "grind_query_seed"
+  | some nonce =>
+    match (coinOps J E).drawInts p2.c8 o.numQueries lde nonce with
+    | none => .error "get_query_positions"
+    | some ps =>
+      let positions := VerifierChecks.sortDedup ps
+      match friQueryLayers J (friOpts o).folding p2.fri.layers positions lde, p1.traceCommit.openAt J positions,
+          p1.consCommit.openAt J positions with
+      | .ok friOpen, .ok topen, .ok copen =>
+        if p2.remainder.isEmpty ∨ 2 ^ Nat.log2 p2.remainder.length ≠ p2.remainder.length then .error "FriProof::new"
+        else if positions.length > 255 then .error "build_proof: num_query_positions"
+        else .ok ⟨nonce, ps, positions, topen, copen, friOpen⟩
+      | .error e, _, _ => .error e
+      | _, .error e, _ => .error e
+      | _, _, .error e => .error e
+
+/-- what `generate_proof` has computed when it builds the proof object -/
+structure Run where
+  p1 : Phase1
+  p2 : Phase2
+  p3 : Phase3
+
+def Run.ctx (r : Run) : Serde.Context := r.p1.ctx
+def Run.pubs (r : Run) : List Nat := r.p1.pubs
+def Run.positions (r : Run) : List Nat := r.p3.positions
+
+/-- the part of the proof the verifier reads before it draws the query positions -/
+def Run.cm (r : Run) : VerifierChecks.Committed El Dg where
+  traceRoots := [r.p1.troot]
+  constraintRoot := r.p1.croot
+  oodTrace := r.p1.oodTrace
+  oodEvals := r.p1.oodEvals
+  friRoots := r.p2.fri.roots ++ [r.p2.remRoot]
+  powNonce := r.p3.nonce
+  gkr := none
+
+/-- the part it reads afterwards -/
+def Run.op (r : Run) : VerifierChecks.Opened El Dg where
+  traceOpenings := [r.p3.traceOpen]
+  constraintOpening := r.p3.consOpen
+  friLayers := r.p3.friOpen
+  remainder := r.p2.remainder
+  numPartitions := 1
+
+/-- `Prover::generate_proof::<E>` -/
+def proveRun (J : Inst) (E : EOps) (d : Desc) (trace : List (List Nat)) (o : Serde.ProofOptions) : PRes Run :=
+  match phase1 J E d trace o with
+  | .error e => .error e
+  | .ok p1 =>
+    match phase2 J E o (d.air.n * o.blowup) p1.deepEvals p1.c7 with
+    | .error e => .error e
+    | .ok p2 =>
+      match phase3 J E o (d.air.n * o.blowup) p1 p2 with
+      | .error e => .error e
+      | .ok p3 => .ok ⟨p1, p2, p3⟩
 
 /-! ## 6. Serialization -/
 
